@@ -1,5 +1,5 @@
 (* C19/Props.v — the property theorems claimed for C19, nothing else. *)
-Require Import Base.Prelude C19.GeneratedFacts C19.Model C19.ProofsMetric C19.ProofsMetricR C19.ProofsKernel C19.ProofsParse.
+Require Import Base.Prelude C19.GeneratedFacts C19.Model C19.ProofsMetric C19.ProofsMetricR C19.ProofsGCRange C19.ProofsCellsize C19.ProofsKernel C19.ProofsParse.
 From Coq Require Import QArith Ascii.
 Open Scope Z_scope.
 
@@ -67,6 +67,91 @@ Theorem C19_great_circle_rejects : forall (T : Type) add sub mul div sqrt sin co
   great_circle add sub mul div sqrt sin cos asin radians ltb of_Z x1 x2 y1 y2 radius = inl e.
 Proof. exact @great_circle_rejects. Qed.
 Print Assumptions C19_great_circle_rejects.
+
+(* great-circle distance is within [0, pi * R] for in-range coordinates and R >= 0: the formula of
+   great_circle_distance over the reals with sin / cos / asin as arbitrary functions satisfying the
+   stated premises (what the bound needs from libm): sin^2 + cos^2 = 1, the addition formulas of cos,
+   cos >= 0 on [-pi/2, pi/2], asin maps [0,1] into [0, pi/2].  They give 0 <= a <= 1 for the
+   haversine term via cos(l1) cos(l2) <= cos^2((l2-l1)/2); sqrt is the real square root (monotone). *)
+Theorem C19_great_circle_range :
+  forall (sin cos asin : Rdefinitions.R -> Rdefinitions.R) (pi : Rdefinitions.R),
+  Rdefinitions.Rle (Rdefinitions.IZR 0) pi ->
+  (forall x, Rdefinitions.Rplus (Rdefinitions.Rmult (sin x) (sin x)) (Rdefinitions.Rmult (cos x) (cos x)) = Rdefinitions.IZR 1) ->
+  (forall x y, cos (Rdefinitions.Rplus x y)
+               = Rdefinitions.Rminus (Rdefinitions.Rmult (cos x) (cos y)) (Rdefinitions.Rmult (sin x) (sin y))) ->
+  (forall x y, cos (Rdefinitions.Rminus x y)
+               = Rdefinitions.Rplus (Rdefinitions.Rmult (cos x) (cos y)) (Rdefinitions.Rmult (sin x) (sin y))) ->
+  (forall x, Rdefinitions.Rle (Rdefinitions.Ropp (Rdefinitions.Rdiv pi (Rdefinitions.IZR 2))) x /\
+             Rdefinitions.Rle x (Rdefinitions.Rdiv pi (Rdefinitions.IZR 2)) -> Rdefinitions.Rle (Rdefinitions.IZR 0) (cos x)) ->
+  (forall x, Rdefinitions.Rle (Rdefinitions.IZR 0) x /\ Rdefinitions.Rle x (Rdefinitions.IZR 1) ->
+             Rdefinitions.Rle (Rdefinitions.IZR 0) (asin x) /\ Rdefinitions.Rle (asin x) (Rdefinitions.Rdiv pi (Rdefinitions.IZR 2))) ->
+  forall x1 x2 y1 y2 radius,
+  Rdefinitions.Rle (Rdefinitions.IZR (-180)) x1 /\ Rdefinitions.Rle x1 (Rdefinitions.IZR 180) ->
+  Rdefinitions.Rle (Rdefinitions.IZR (-180)) x2 /\ Rdefinitions.Rle x2 (Rdefinitions.IZR 180) ->
+  Rdefinitions.Rle (Rdefinitions.IZR (-90)) y1 /\ Rdefinitions.Rle y1 (Rdefinitions.IZR 90) ->
+  Rdefinitions.Rle (Rdefinitions.IZR (-90)) y2 /\ Rdefinitions.Rle y2 (Rdefinitions.IZR 90) ->
+  Rdefinitions.Rle (Rdefinitions.IZR 0) radius ->
+  exists d, r_great_circle sin cos asin pi x1 x2 y1 y2 radius = inr d /\
+            Rdefinitions.Rle (Rdefinitions.IZR 0) d /\ Rdefinitions.Rle d (Rdefinitions.Rmult pi radius).
+Proof. exact great_circle_range. Qed.
+Print Assumptions C19_great_circle_range.
+
+(* the premises are consistent: the real sin / cos / asin / PI of the standard library satisfy them *)
+Theorem C19_great_circle_range_real_functions : forall x1 x2 y1 y2 radius,
+  Rdefinitions.Rle (Rdefinitions.IZR (-180)) x1 /\ Rdefinitions.Rle x1 (Rdefinitions.IZR 180) ->
+  Rdefinitions.Rle (Rdefinitions.IZR (-180)) x2 /\ Rdefinitions.Rle x2 (Rdefinitions.IZR 180) ->
+  Rdefinitions.Rle (Rdefinitions.IZR (-90)) y1 /\ Rdefinitions.Rle y1 (Rdefinitions.IZR 90) ->
+  Rdefinitions.Rle (Rdefinitions.IZR (-90)) y2 /\ Rdefinitions.Rle y2 (Rdefinitions.IZR 90) ->
+  Rdefinitions.Rle (Rdefinitions.IZR 0) radius ->
+  exists d, r_great_circle Rtrigo_def.sin Rtrigo_def.cos Ratan.asin Rtrigo1.PI x1 x2 y1 y2 radius = inr d /\
+            Rdefinitions.Rle (Rdefinitions.IZR 0) d /\ Rdefinitions.Rle d (Rdefinitions.Rmult Rtrigo1.PI radius).
+Proof. exact great_circle_range_real. Qed.
+Print Assumptions C19_great_circle_range_real_functions.
+
+(* calc_cellsize, in any arithmetic: the resolution is attrs['res'] (pair, or one number for both
+   axes) when present and otherwise (max - min) / (n - 1) of the coordinates; the unit is attrs['unit']
+   or DEFAULT_UNIT; the result is (cx * factor, |cy * factor|) with the factor of the generated UNITS
+   table, and a unit that is not a key of the table gives no result (KeyError) *)
+Theorem C19_calc_cellsize_spec :
+  forall (T : Type) (sub mul div : T -> T -> T) (abs : T -> T) (table : list (list ascii * T))
+         attr unit_attr xmin xmax wm1 ymin ymax hm1,
+    let unit := match unit_attr with Some u => u | None => default_unit end in
+    let cx := match attr with ResPair a _ => a | ResScalar a => a | ResAbsent => div (sub xmax xmin) wm1 end in
+    let cy := match attr with ResPair _ b => b | ResScalar a => a | ResAbsent => div (sub ymax ymin) hm1 end in
+    (forall f, lookup_unit unit table = Some f ->
+       calc_cellsize sub mul div abs table attr unit_attr xmin xmax wm1 ymin ymax hm1 = Some (mul cx f, abs (mul cy f))) /\
+    (lookup_unit unit table = None ->
+       calc_cellsize sub mul div abs table attr unit_attr xmin xmax wm1 ymin ymax hm1 = None).
+Proof. exact @calc_cellsize_cases. Qed.
+Print Assumptions C19_calc_cellsize_spec.
+
+(* ... and at the exact (rational) instance with the generated table: the y cell size is never
+   negative; without a unit attribute the result is the resolution itself (metres, factor 1);
+   for evenly spaced coordinates x0, x0+dx, ..., x0+(n-1)dx the coordinate resolution is dx *)
+Theorem C19_calc_cellsize_exact :
+  (forall attr unit_attr xmin xmax wm1 ymin ymax hm1 cx cy,
+     q_calc_cellsize attr unit_attr xmin xmax wm1 ymin ymax hm1 = Some (cx, cy) -> (0 <= cy)%Q) /\
+  (forall attr xmin xmax wm1 ymin ymax hm1,
+     exists cx cy, q_calc_cellsize attr None xmin xmax wm1 ymin ymax hm1 = Some (cx, cy) /\
+       (cx == fst (resolution Qminus Qdiv attr xmin xmax wm1 ymin ymax hm1))%Q /\
+       (cy == Qabs.Qabs (snd (resolution Qminus Qdiv attr xmin xmax wm1 ymin ymax hm1)))%Q) /\
+  (forall (x0 dx : Q) (n : Z), 2 <= n ->
+     (calc_res Qminus Qdiv x0 (x0 + inject_Z (n - 1) * dx) (inject_Z (n - 1)) == dx)%Q).
+Proof.
+  split; [exact q_cellsize_second_nonneg|]. split; [exact q_cellsize_no_unit|exact q_calc_res_even_spacing].
+Qed.
+Print Assumptions C19_calc_cellsize_exact.
+
+Example C19_nonvacuous_cellsize :
+  (q_calc_cellsize (ResPair (1 # 2) (-(1 # 2))) (Some ["k"; "m"]%char) 0 0 1 0 0 1
+     = Some ((1 # 2) * (1000 # 1), Qabs.Qabs (-(1 # 2) * (1000 # 1))) /\
+   q_calc_cellsize (ResScalar (3 # 1)) (Some ["K"; "M"]%char) 0 0 1 0 0 1 = None /\
+   (exists c, q_calc_cellsize ResAbsent None (10 # 1) (14 # 1) (4 # 1) (7 # 1) (9 # 1) (2 # 1) = Some c /\
+              fst c == 1 /\ snd c == 1))%Q.
+Proof.
+  split; [vm_compute; reflexivity|]. split; [vm_compute; reflexivity|].
+  eexists. split; [vm_compute; reflexivity|]. split; reflexivity.
+Qed.
 
 (* the haversine term (hence the distance) is symmetric under exchanging the two points, in any
    arithmetic where subtraction is antisymmetric, halving and sin are odd, (-a)(-a) = a a and
